@@ -269,6 +269,7 @@ Proof.
   destruct (match r, styp with Prov, TAbsent => true | _, _ => false end); [discriminate|].
   fold (exch_auth cl r c) (exch_err cl r c). destruct (exch_auth cl r c) as [k|];
     [|destruct (exch_err_shape cl r c) as [st ->]; discriminate].
+  destruct (c_exchange k) eqn:GX; cbn [negb]; [|discriminate].
   destruct (read_x g styp subj) as [[id ssub]|] eqn:RS; [|destruct req; discriminate].
   set (A := match actor with
             | None => Some (NoId, "", TAbsent)
@@ -294,7 +295,7 @@ Lemma gstep_step cl s o : gstep cl (fst s) o (snd (step cl s o)) = fst (fst (ste
 Proof.
   destruct s as [g nx]. destruct o as [r cid sub scopes|r t|r c t|r c t h|r hint cid|r c subj styp actor req scopes aud]; cbn [step fst snd].
   - unfold issue. destruct (find_client cl cid) as [k|] eqn:F; [|reflexivity].
-    destruct (string_in "offline_access" scopes); cbn; unfold expired_of; rewrite F; reflexivity.
+    destruct (string_in "offline_access" scopes && c_refresh k); cbn; unfold expired_of; rewrite F; reflexivity.
   - reflexivity.
   - reflexivity.
   - unfold revoke. fold (auth_revoke cl r c) (revoke_err cl r c). destruct (auth_revoke cl r c) as [caller|];
@@ -346,7 +347,7 @@ Lemma check_step cl s o : op_unconfused o = true -> check cl (fst s) o (snd (ste
 Proof.
   intro U. destruct s as [g nx].
   destruct o as [r cid sub scopes|r t|r c t|r c t h|r hint cid|r c subj styp actor req scopes aud]; cbn [step fst snd].
-  - unfold issue. destruct (find_client cl cid); [destruct (string_in "offline_access" scopes)|]; reflexivity.
+  - unfold issue. destruct (find_client cl cid) as [k|]; [destruct (string_in "offline_access" scopes && c_refresh k)|]; reflexivity.
   - unfold userinfo. destruct (read_at t) as [[id sub]|] eqn:R; [|reflexivity].
     destruct (live_tok g id) as [tr|] eqn:L; [|reflexivity].
     apply live_tok_inv in L as (n & -> & F & X). apply read_at_as_access in R.
@@ -395,30 +396,35 @@ Proof.
   rewrite C, G. cbn. apply IH. exact U2.
 Qed.
 
-Definition unconfused (i : input) : bool := match i with Hist _ ops => forallb op_unconfused ops end.
+Definition unconfused (i : input) : bool := match i with Hist _ ops => forallb op_unconfused (located ops) end.
 
 Theorem spec_model_partial : forall i, unconfused i = true -> spec i (model i) = true.
-Proof. intros [cl ops] U. exact (spec_run_model cl ops init U). Qed.
+Proof. intros [cl ops] U. exact (spec_run_model cl (located ops) init U). Qed.
 
 (* Known finding Fxx-C08-1: a revoked JWT access token, declared as id_token, is accepted as
    exchange subject (the faithful model of the code says so). *)
-Definition refuting_clients := [Client "web" "web-secret" AMBasic false false; Client "web2" "web2-secret" AMPost true false].
+Definition refuting_clients := [Client "web" "web-secret" AMBasic false false true true; Client "web2" "web2-secret" AMPost true false true true].
 Definition refuting_history :=
   Hist refuting_clients
-    [Issue Prov "web2" "bob" ["openid"];
-     Revoke Prov (Post "web2" "web2-secret") (Jwt true true false (AT 2) "bob" "") false;
-     Exchange Prov (Basic "web" "web-secret") (Jwt true true false (AT 2) "bob" "") TId None TAccess ["openid"] ["web"]].
+    [(0, true, Issue Prov "web2" "bob" ["openid"]);
+     (0, true, Revoke Prov (Post "web2" "web2-secret") (PJwt 0 true false (AT 2) "bob" "") false);
+     (0, true, Exchange Prov (Basic "web" "web-secret") (PJwt 0 true false (AT 2) "bob" "") TId None TAccess ["openid"] ["web"])].
 Theorem spec_model_refuted : exists i, spec i (model i) = false.
 Proof. exists refuting_history. vm_compute. reflexivity. Qed.
 
 Example spec_model_partial_nonvacuous :
   let i := Hist refuting_clients
-    [Issue Leg "web2" "bob" ["openid"; "offline_access"];
-     UserInfo Prov (Jwt true true false (AT 3) "bob" "");
-     Revoke Leg (Post "web2" "web2-secret") (Jwt true true false (AT 3) "bob" "") false;
-     UserInfo Prov (Jwt true true false (AT 3) "bob" "");
-     Exchange Prov (Basic "web" "web-secret") (Raw (RT 2)) TRefresh None TAccess ["openid"] ["web"]] in
-  unconfused i = true /\ existsb positive (model i) = true /\ spec i (model i) = true.
+    [(0, true, Issue Leg "web2" "bob" ["openid"; "offline_access"]);
+     (0, true, UserInfo Prov (PJwt 0 true false (AT 3) "bob" ""));
+     (1, true, UserInfo Prov (PJwt 0 true false (AT 3) "bob" ""));      (* another tenant's issuer: refused *)
+     (0, false, UserInfo Leg (PJwt 0 true false (AT 3) "bob" ""));     (* key storage down: refused *)
+     (0, true, Revoke Leg (Post "web2" "web2-secret") (PJwt 0 true false (AT 3) "bob" "") false);
+     (0, true, UserInfo Prov (PJwt 0 true false (AT 3) "bob" ""));
+     (0, true, Exchange Prov (Basic "web" "web-secret") (PRaw (RT 2)) TRefresh None TAccess ["openid"] ["web"])] in
+  unconfused i = true /\ existsb positive (model i) = true /\ spec i (model i) = true /\
+  model i = [OIssued (AT 3) (RT 2); OInfo "bob"; OErr S401 false; OErr S401 true; OOk; OErr S403 false;
+             OExch TAccess (XOpaque (AT 4) "bob") NoId false ["openid"]
+               (Some (TRec "web" "bob" "" ["openid"] ["web"] false))].
 Proof. vm_compute. repeat split. Qed.
 
 (* ---------------------------------------------------------------- readable per-endpoint statements (any state) *)
@@ -545,7 +551,7 @@ Proof.
   destruct o as [r cid sub scopes|r t|r c t|r c t h|r hint cid|r c subj styp actor req scopes aud]; cbn [step fst snd];
     try apply grows_refl.
   - unfold issue. destruct (find_client cl cid); [|apply grows_refl].
-    destruct (string_in "offline_access" scopes); cbn [fst]; apply grows_add; lia.
+    destruct (string_in "offline_access" scopes && c_refresh c); cbn [fst]; apply grows_add; lia.
   - destruct (revoke cl r g c t h) as [g' x] eqn:E. cbn [fst snd].
     unfold revoke in E. fold (auth_revoke cl r c) in E.
     destruct (auth_revoke cl r c); [|injection E as <- _; apply grows_refl].
